@@ -45,7 +45,7 @@ let parse_events (s : string) : (ev list) * (int * char) list =
       | ["O"] | ["Oq"] -> Some EvInStop
       | ["K"] -> None
       | ["S"; _] -> Some (EvSdp VOther)
-      | ["S"; v; _] -> Some (EvSdp (match v with "a" -> VAvc | "h" -> VHevc | _ -> VOther))
+      | ["S"; v; _] -> Some (EvSdp (match (if v = "" then ' ' else v.[0]) with 'a' -> VAvc | 'h' -> VHevc | _ -> VOther))
       | ["D"; id] ->
         let idn = int_of_string id in
         if Stdlib.List.mem_assoc idn !kinds then None
